@@ -109,6 +109,14 @@ def run(ctx):
             ctx.violation("R06.4", f.short, "%s stores an angle that went through to_radians() into Instance.angle, which Transform::from_instance converts to radians again" % f.short, "%s:%d" % (f.sp[0], f.sp[1]), f.short)
         else:
             ctx.ok("R06.4", f.short, "angle copied in degrees")
+    # ---- R06.6 geometry helpers the import relies on
+    from rules import geomrules as gm
+    gm.rule_boundary_as_rect(ctx, "R06.6", ctx.tier)
+    gm.rule_rect_contains(ctx, "R06.7")
+    gm.rule_bbox_contains(ctx, "R06.7b")
+    # ---- R06.8 flattened geometry: each reference is reflected, rotated, then translated, parents applied outermost (C12's rules)
+    from rules import C12 as c12
+    c12.run(ctx.sub("R06.8", "instance transforms and flattening satisfy the transform rules of C12 (reflect, then rotate, then translate; parent-first cascade)"))
     # ---- R06.5 error, not crash
     roots = pr.roots_by_short(F, ("gds::GdsImporter::import",))
     pr.rule_panic_free(ctx, "R06.5", roots, "Library::from_gds", scope_prefixes=["layout21raw::"], floor=5, skip_wide_signed=True)
